@@ -65,7 +65,7 @@ def run(chk: common.Check, tier: str):
         outp = os.path.join(td, "grammar_parser.py")
         env = dict(os.environ, PYTHONPATH=str(common.REPO / "src"))
         r = subprocess.run([common.PY, "-m", "pegen", "-q", str(META), "-o", outp], capture_output=True, text=True, env=env,
-                           cwd=td, timeout=300)
+                           cwd=td, timeout=300 * common.TMULT)
         chk.count()
         chk.note_case("regeneration through the command line")
         if r.returncode != 0 or not os.path.exists(outp):
